@@ -300,6 +300,8 @@ NA = {}
 HOOK_COMMITS = ["cb16685", "7053e9c", "17a7452"]
 FIX_COMMITS = ["3ba2124", "35e540e", "5d9c0a9", "182cdbb", "c177d40", "4cc9b5c", "e04537c", "f4cd737", "4b54f48", "54b79dc", "663fc64", "4477a51", "371b1d0", "3797c82", "1b93308", "e3c7411", "1dddabc"]
 ENGINES = [
+    dict(name="TokenStream", path="specs/TokenStream.tla", serves_properties=["C09"],
+         kind_free_text="TLA+ labelling of the JSON automaton's transitions with the tokens Decoder.Token returns; exported with the transition table"),
     dict(name="FloatText", path="specs/FloatText.tla", serves_properties=["C01"],
          kind_free_text="TLA+ definition of the text of a float from its shortest decimal digits and exponent; numbers with expected text exported by TLC"),
     dict(name="FieldRules", path="specs/FieldRules.tla", serves_properties=["C01", "C02"],
